@@ -463,7 +463,13 @@ def paused_writer(ctx, dirpath, size):
                     ctx.fail("C09/reader-saw-partial-batch", spec, f"reader inside A's transaction saw {rows}", raise_=False)
 
 
+def _batch_size(wid, b):
+    return 1 + (wid + b) % 4
+
+
 def _writer(args):
+    if args[0] == "reader":
+        return _reader(args)
     path, wid, nb = args
     logging.getLogger("monkeytype").propagate = False
     s = SQLiteStore.make_store(path)
@@ -471,7 +477,7 @@ def _writer(args):
     done = []
     for b in range(nb):
         try:
-            s.add([mk_trace(t) for t in batch_specs(f"w{wid}b{b}", 1 + (wid + b) % 4)])
+            s.add([mk_trace(t) for t in batch_specs(f"w{wid}b{b}", _batch_size(wid, b))])
             done.append((b, "returned"))
         except Exception as e:
             done.append((b, "raised:" + type(e).__name__))
@@ -479,20 +485,61 @@ def _writer(args):
     return wid, done
 
 
-def free_running(ctx, dirpath, nproc, rep):
-    path = os.path.join(dirpath, f"race_{nproc}_{rep}.sqlite3")
+def _reader(args):
+    """a concurrent reader: every poll of filter() must show each writer batch completely or not at all, and a batch
+    that was visible once stays visible"""
+    _, path, polls = args
+    logging.getLogger("monkeytype").propagate = False
+    s = SQLiteStore.make_store(path)
+    s.conn.execute("PRAGMA busy_timeout = 20000")
+    bad = []
+    seen_whole = set()
+    npolls = 0
+    for _ in range(polls):
+        try:
+            names = [r.qualname for r in s.filter("m", "fw", 100000)]
+        except sqlite3.OperationalError:
+            continue
+        npolls += 1
+        per = {}
+        for x in names:
+            tag = x[1:].split("_")[0]
+            per[tag] = per.get(tag, 0) + 1
+        for tag, cnt in per.items():
+            wid, b = tag[1:].split("b")
+            if cnt != _batch_size(int(wid), int(b)):
+                bad.append(f"poll saw {cnt} of {_batch_size(int(wid), int(b))} rows of batch {tag}")
+        gone = seen_whole - set(per)
+        if gone:
+            bad.append(f"batches visible in an earlier poll vanished: {sorted(gone)}")
+        seen_whole |= set(per)
+    s.conn.close()
+    return "reader", (npolls, len(seen_whole), bad[:5])
+
+
+def free_running(ctx, dirpath, nproc, rep, readers=0):
+    path = os.path.join(dirpath, f"race_{nproc}_{rep}_{readers}.sqlite3")
     SQLiteStore.make_store(path).conn.close()
     mp = multiprocessing.get_context("fork")
-    with mp.Pool(nproc) as pool:
-        results = pool.map(_writer, [(path, w, 1 + (w + rep) % 3) for w in range(nproc)], chunksize=1)
+    tasks = [(path, w, 1 + (w + rep) % 3) for w in range(nproc)] + [("reader", path, 60)] * readers
+    with mp.Pool(nproc + readers) as pool:
+        results = pool.map(_writer, tasks, chunksize=1)
     integrity, names = count_rows(path)
-    spec = ["RACE", nproc, rep]
-    ctx.case(spec, True, ["schedule:free-running", f"processes={nproc}"])
+    spec = ["RACE", nproc, rep, readers]
+    ctx.case(spec, True, ["schedule:free-running", f"processes={nproc}", f"readers={readers}"])
     if integrity != [("ok",)]:
         return ctx.fail("C09/database-corrupt-after-interruption", spec, str(integrity), raise_=False)
     for wid, done in results:
+        if wid == "reader":
+            npolls, nseen, bad = done
+            ctx.extra["race_reader_polls"] = ctx.extra.get("race_reader_polls", 0) + npolls
+            if nseen:
+                ctx.label("reader-saw-committed-batches")
+            if bad:
+                ctx.fail("C09/reader-saw-partial-batch", spec, f"a concurrent reader process: {bad}", raise_=False)
+            continue
         for b, status in done:
-            size = 1 + (wid + b) % 4
+            size = _batch_size(wid, b)
             got = len([x for x in names if x.startswith(f"fw{wid}b{b}_")])
             if status == "returned" and got != size:
                 ctx.fail("C09/committed-batch-lost", spec, f"writer {wid} batch {b}: add returned but {got} of {size} rows stored", raise_=False)
@@ -554,7 +601,7 @@ def run(ctx):
     try:
         for nproc in ((4, 8) if q else (2, 4, 8, 16)):
             for rep in range(2 if q else 10):
-                free_running(ctx, d, nproc, rep)
+                free_running(ctx, d, nproc, rep, readers=0 if rep % 2 == 0 else min(4, nproc // 2))
     finally:
         shutil.rmtree(d, ignore_errors=True)
 
@@ -571,7 +618,7 @@ def replay(ctx, case):
             ctx.nshards, ctx.shard = 1, 0
             paused_writer(ctx, d, case[1])
         elif case[0] == "RACE":
-            free_running(ctx, d, case[1], case[2])
+            free_running(ctx, d, case[1], case[2], case[3] if len(case) > 3 else 0)
         elif case[0] == "BIG":
             big_batch(ctx, d, case[1])
     finally:
